@@ -29,6 +29,7 @@ TECHNIQUE += '; contracts of call/rule_call/repeat/gather/join/left-right join/n
 LEVEL_TEXT += ' Added clauses: call() moves the caller to the end of the rule result and appends its node once; rule_call() opens its frame with new(), builds and memoizes RuleResult(action value, position after the body) and undoes the frame; separators are kept/dropped as documented; group/optional/choice return the value that matched, a choice whose options all fail raises; name:e / name+:e / @:e / @+:e store under the right key as single value or list.'
 TECHNIQUE += '; optimizer equivalence: optimized() of every expression class interpreted on all terms of depth <= 2 and compared with its input modulo four rewrites that are valid in PEG (C01.R11)'
 LEVEL_TEXT += ' Added clause: the optimisation pass every parse runs on accepts, consumes and skips exactly like the grammar that was written.'
+LEVEL_TEXT += ' Added clauses (rounds 9-11): the optimised rules / grammar every parse runs on keep name, parameters, flags, order and (modulo valid rewrites) bodies; whitespace placement table incl. the is_tokn derivation.'
 TECHNIQUE += '; falsy rule values and action results in the call / rule_call contracts; AST._define with a name listed as single and list'
 TECHNIQUE += '; a single-bound name is never declared as a list (defines_list over all classes); a call is optimised into a call of the same rule (who-may-write Call._rule + contract)'
 TECHNIQUE += '; the separator of joins and gathers commits (= C05.R4); nameset/nameadd bind whatever last_node holds (None and falsy values)'
